@@ -20,3 +20,14 @@ Definition check_senc (c : ecfg * list ifile * eobs) : bool :=
   | EErr _, EErr _ => true
   | _, _ => false
   end.
+
+(* the message-level stream model itself (Model/Stream.v) on the same observations *)
+From Fit Require Import Model.Stream.
+Definition check_stream_model (c : ecfg * list ifile * eobs) : bool :=
+  let '(cfg, fs, obs) := c in
+  match stream_bytes cfg (map (fun f => ef_msgs (mk_file f)) fs), obs with
+  | Ok x, EOk y _ => list_N_eqb x y
+  | Ok _, _ => false
+  | _, EOk _ _ => false
+  | _, _ => true
+  end.
